@@ -389,6 +389,9 @@ def plan(tier, seed):
 
 def run_shard(cfg):
     rec = Rec(cfg)
+    from .. import zoo
+
+    rec.extra["first_use"] = zoo.warm_up(cfg["k"], base=lambda: TP(one=TL(1)), derived=lambda: TQ(one=TS(1), items=(TL(2),)))
     if cfg["k"] == 0:
         check_dispatch(rec)
     idx = 0
